@@ -183,7 +183,7 @@ contract(
     raises={"PromptError": (None, lambda c: removed(c.h, c.fs) == removed(c.h0, c.fs)), "CheckoutError": (None, lambda c: _cf_post(c))},
     modifies=lambda c: [("FileSystem.files", c.fs), ("FileSystem.removed", c.fs), ("G.lfiles",), ("G.l444",)],
     ensures=_cf_post,
-    props=["C05"],
+    props=["C05", "C10"],
     doc="every overwrite goes through the guarded removal, with the cache status of the OLD object",
 )
 
